@@ -3,6 +3,9 @@
 // never invalidated — the programs of the C15 statement.  Every thread unsubscribes only handles it obtained itself.
 //   mix 0: balanced      mix 1: notify-heavy      mix 2: subscribe/unsubscribe/shrink-heavy      mix 3: read-only ops after a
 //   subscribe phase (notify/exists/depth)      mix 4: as 0 with an `int` payload on the specific keys
+//   mix 5: as 0, and half of the notifies are issued from inside a callback of a SECOND, unrelated ConcurrentSubjectRouter (the
+//          thread is in the middle of front.notify(), holding front's read lock, when it calls router.notify()); the callback
+//          does not call back into the router it was delivered by
 // OUT-OF-CONTRACT probes (never part of the check; they document what the statement excludes, see harness/drf/mutants.py probes):
 //   mix 8: threads also call mute()/unmute()/isValid() through their handles (not locked by ConcurrentInvoker)
 //   mix 9: some observers invalidate themselves, so Subject::notify removes them lazily — a write under the READ lock
@@ -34,6 +37,12 @@ int main(int argc, char **argv) {
     pattern.push_back(RoutingKeyBuilder {}.all().build());
     pattern.push_back(RoutingKeyBuilder {}.level("d").level(std::regex("e|g")).all().build());
     const bool payload = a.mix == 4;
+    // mix 5: the bridge.  One eternal observer of `front` forwards to `router`; which key it forwards is a per-thread value.
+    ConcurrentSubjectRouter front;
+    static thread_local const RoutingKey *bridged = nullptr;
+    static thread_local long bridgedCount = 0;
+    auto frontKey = RoutingKeyBuilder {"f"}.build();
+    auto bridge = front.subscribe(frontKey, [&router] { if (bridged) bridgedCount += (long) router.notify(*bridged); });
 
     drf::Gate gate(a.threads);
     std::vector<std::thread> ts;
@@ -66,7 +75,12 @@ int main(int argc, char **argv) {
                         default: sink += h->isValid(); break;
                     }
                 } else if (r < pNotify) {
-                    if (payload) sink += (long) router.notify(specific[rng.below((unsigned) specific.size())], 1);
+                    if (a.mix == 5 && rng.below(2) == 0) {
+                        bridged = rng.below(3) == 0 ? &pattern[rng.below((unsigned) pattern.size())] : &specific[rng.below((unsigned) specific.size())];
+                        front.notify(frontKey);
+                        bridged = nullptr;
+                        sink += bridgedCount;
+                    } else if (payload) sink += (long) router.notify(specific[rng.below((unsigned) specific.size())], 1);
                     else if (rng.below(3) == 0) sink += (long) router.notify(pattern[rng.below((unsigned) pattern.size())]);
                     else sink += (long) router.notify(specific[rng.below((unsigned) specific.size())]);
                 } else if (r < pNotify + pSub) {
